@@ -46,6 +46,9 @@ var optTable = []struct {
 
 const nOptSets = 32
 
+// maxReports bounds the number of distinct violation classes listed per run.
+const maxReports = 10
+
 func optSet(bits int) (pdf.OutputOptions, []string) {
 	var o pdf.OutputOptions
 	names := []string{}
@@ -334,14 +337,25 @@ func (c *collector) judge(batch int) error {
 		isBad[b] = true
 	}
 	reported := map[string]bool{}
-	for i, r := range recs {
-		if isBad[i] {
-			key, what := classify(r)
-			if !reported[key] {
-				reported[key] = true
-				ctx.Violation(key, what, replayCase(r))
-			}
+	// the simplest rejected executions first; one report per class
+	order := append([]int(nil), bad...)
+	sort.SliceStable(order, func(a, b int) bool { return len(recs[order[a]].Bytes) < len(recs[order[b]].Bytes) })
+	more := 0
+	for _, i := range order {
+		r := recs[i]
+		key, what := classify(r)
+		if reported[key] {
+			continue
 		}
+		reported[key] = true
+		if len(reported) > maxReports {
+			more++
+			continue
+		}
+		ctx.Violation(key, what, replayCase(r))
+	}
+	if more > 0 {
+		ctx.Logf("%d further classes of rejected executions not listed (the %d simplest are)", more, maxReports)
 	}
 	// every mismatch the Go comparison saw must be explained by a rejection
 	// of the bytes written or of the value read in the same execution
